@@ -7,10 +7,16 @@
    Dbg.v keeps the two apart (a script for the debugger, an input for the program); this file says
    what the process really does, and DbgStreamProofs.v when the two coincide.
 
-   Domain: the bytes the DEBUGGER reads are ASCII (its UTF-8 decoder is not modelled) and no line
-   leaves the process (`sudo`); otherwise the result is [None]. *)
+   The stream is a stream of BYTES.  The program takes bytes; the debugger's reader decodes UTF-8
+   (Utf8.v: `read_char_from_bytes`) — the separators newline and `;` are ASCII and never part of a
+   multi-byte character, so cutting the bytes at them and decoding the line is what the reader does
+   character by character.
+
+   Domain: every line the DEBUGGER reads is valid UTF-8 (the reader panics otherwise: `expect("uh
+   oh")`) and no line leaves the process (`sudo`); otherwise the result is [None]. *)
 From Coq Require Import List NArith ZArith Bool.
 From Lace Require Import Word Machine Isa Vm Asm Dbg DebugText.
+From Lace Require Utf8.
 From Lace Require CmdSpec Cmd.
 Import ListNotations.
 Open Scope N_scope.
@@ -28,13 +34,16 @@ Fixpoint fetch (fuel : nat) (inp : list N) : fetched :=
       match Cmd.stdin_read inp with
       | (None, rest) => FEof rest
       | (Some raw, rest) =>
-          if existsb (fun b => 128 <=? b) raw then FLeave
-          else match Cmd.parse_line raw with
-               | None => fetch fuel' rest
-               | Some (Cmd.Ok c) => FCmd (conv_cmd c) rest
-               | Some (Cmd.Err _) => FCmd CBad rest
-               | Some _ => FLeave
-               end
+          match Utf8.decode raw with
+          | None => FLeave
+          | Some line =>
+              match Cmd.parse_line line with
+              | None => fetch fuel' rest
+              | Some (Cmd.Ok c) => FCmd (conv_cmd c) rest
+              | Some (Cmd.Err _) => FCmd CBad rest
+              | Some _ => FLeave
+              end
+          end
       end
   end.
 
